@@ -1105,6 +1105,69 @@ def _gen_fit(rng, search=False):
     return case
 
 
+# around and beyond the usual block sizes (1024 .. 8192), mostly with a large remainder modulo each of them
+_BIG_N = [1500, 3000, 4097, 5000, 6143, 7000, 9001, 10000, 11000, 13000, 4096, 8191]
+
+
+def _gen_fit_large(rng):
+    """Large structures (atom counts around and beyond typical block sizes, not multiples of them) that differ by MORE than
+    a rigid motion (noise, a hinge: the trailing 40 % of the atoms moved as a second rigid body, or different models), so
+    that every atom matters for the rotation.  Only the parameters are stored; `_large_arrays` rebuilds the coordinates."""
+    combo = rng.choice(["aa", "aa", "as", "ss"])
+    p = {"n": rng.choice(_BIG_N), "seed": rng.randint(0, 2**31), "scale": rng.choice([1, 5, 20]),
+         "mode": rng.choice(["noise", "hinge", "hinge", "hinge", "both", "both", "rigid"]), "noise": rng.choice([0.05, 0.3, 1.0]),
+         "mf": {"aa": 0, "as": 0, "ss": 2}[combo], "mm": {"aa": 0, "as": 2, "ss": 2}[combo],
+         "mask": rng.choice(["none", "none", "none", "most", "most", "half"])}
+    return {"kind": "fit", "large": p, "shape": "generic", "combo": combo, "noise": p["noise"] if p["mode"] != "rigid" else 0,
+            "mirror": False, "rigid": p["mode"] == "rigid" and combo in ("aa", "as"), "scale": p["scale"],
+            "dtype": rng.choice(["float32", "float64"]), "atoms": rng.random() < 0.3, "pseed": rng.randint(0, 2**31),
+            "layout": rng.choice(_LAYOUTS), "npert": 40}
+
+
+def _large_arrays(p):
+    import numpy as np
+    g = np.random.default_rng(p["seed"])
+    n, sc = p["n"], p["scale"]
+
+    def rot():
+        q, r_ = np.linalg.qr(g.normal(size=(3, 3)))
+        q = q * np.sign(np.diag(r_))
+        if np.linalg.det(q) < 0:
+            q[:, 0] = -q[:, 0]
+        return q
+    base = g.normal(size=(n, 3)) * sc
+
+    def moved(P):
+        Q = P.copy()
+        if p["mode"] in ("hinge", "both"):
+            k = int(0.6 * n)
+            c = Q[k:].mean(axis=0)
+            Q[k:] = (Q[k:] - c) @ rot().T + c + g.normal(size=3) * sc
+        if p["mode"] in ("noise", "both"):
+            Q = Q + g.normal(size=Q.shape) * p["noise"] * sc
+        return Q @ rot().T + g.normal(size=3) * 3 * sc
+    fixed_models = [base + (g.normal(size=base.shape) * 0.3 * sc if i else 0) for i in range(max(p["mf"], 1))]
+    fixed = np.stack(fixed_models) if p["mf"] else fixed_models[0]
+    mobile = np.stack([moved(fixed_models[i % len(fixed_models)]) for i in range(p["mm"])]) if p["mm"] else moved(fixed_models[0])
+    mask = None
+    if p["mask"] == "most":
+        mask = g.random(n) < 0.93
+    elif p["mask"] == "half":
+        mask = g.random(n) < 0.55
+    return fixed.astype(np.float32), mobile.astype(np.float32), mask
+
+
+def _gen_rot_large(rng):
+    """Exact covariance / rotation of a large structure (small integers: the float32 sums stay exact)."""
+    n = rng.choice([4097, 4100, 5000, 8193])
+    mf, mm = rng.choice([(1, 1), (1, 1), (2, 2), (1, 2)])
+    F = [[[rng.randint(-3, 3) for _ in range(3)] for _ in range(n)] for _ in range(mf)]
+    M = [[[rng.randint(-3, 3) for _ in range(3)] for _ in range(n)] for _ in range(mm)]
+    npairs, ps = _pairs(rng)
+    flat = lambda x: ",".join(str(v) for v in _flatten(x))   # noqa: E731
+    return {"kind": "rot", "ops": [f"rot {mf} {mm} {n} {flat(F)} {flat(M)} {npairs} {_toks(_flatten(ps))}"]}
+
+
 def _gen_woo_float(rng):
     import numpy as np
     n = rng.choice([3, 4, 5, 8, 12, 20, 40])
@@ -1166,6 +1229,10 @@ def cases(rng, tier):
         yield _gen_fit(rng)
     for _ in range(120 * k):
         yield _gen_woo_float(rng)
+    for _ in range(16 * k):
+        yield _gen_fit_large(rng)
+    for _ in range(1 * k):
+        yield _gen_rot_large(rng)
     for _ in range(40 * k):
         yield _gen_refuse(rng)
     for _ in range(80 * k):
@@ -1295,6 +1362,11 @@ def _check_transform(T, X, tag, v, history=True):
     Y3 = Yc if Yc.ndim == 3 else Yc[None]
     M = T.as_matrix()
     m = T.rotation.shape[0]
+    if X3.shape[0] != m:
+        v.append((f"C16/{tag}/model-count-mismatch-accepted",
+                  f"apply() accepted {X3.shape[0]} model(s) for {m} rotation(s) (centre translations: {T.center_translation.shape[0]}, "
+                  f"target translations: {T.target_translation.shape[0]}) instead of raising IndexError"))
+        return
     tol = _tol(X3, Y3, T.center_translation, T.target_translation)
     if M.shape != (m, 4, 4):
         v.append((f"C16/{tag}/as_matrix-shape", f"as_matrix shape {M.shape} for {m} models"))
@@ -1454,9 +1526,12 @@ def _oracle_fit(case):
     import numpy as np
     S = _mod()
     v = []
-    fixed = np.array(case["fixed"], dtype=np.float32)
-    mobile = np.array(case["mobile"], dtype=np.float32)
-    mask = None if case.get("mask") is None else np.array(case["mask"], dtype=bool)
+    if case.get("large"):
+        fixed, mobile, mask = _large_arrays(case["large"])
+    else:
+        fixed = np.array(case["fixed"], dtype=np.float32)
+        mobile = np.array(case["mobile"], dtype=np.float32)
+        mask = None if case.get("mask") is None else np.array(case["mask"], dtype=bool)
     dt = case.get("dtype", "float32")
     lay = case.get("layout", "c")
     F, M = (_spell(fixed.astype(dt), lay), _spell(mobile.astype(dt), lay)) if not case.get("atoms") \
@@ -1886,13 +1961,28 @@ def _oracle_exact(case):
         w = op.split()
         if w[0] != "apply":
             continue
+        T = _transform(w[1:7], dt)
+        X = _coords(w[7], int(w[8]), int(w[9]), w[10])
+        # acceptance is a function of the shapes alone (documented broadcasting): the structure must have as many models
+        # as there are rotations (else IndexError); each translation array has one row or one row per rotation (else ValueError)
+        m, kc, kt = T.rotation.shape[0], T.center_translation.shape[0], T.target_translation.shape[0]
+        mx = X.shape[0] if X.ndim == 3 else 1
+        expect = IndexError if mx != m else (ValueError if (kc not in (1, m) or kt not in (1, m)) else None)
+        shapes = f"{mx} model(s), {m} rotation(s), {kc} centre / {kt} target translation(s)"
         try:
-            T = _transform(w[1:7], dt)
-            X = _coords(w[7], int(w[8]), int(w[9]), w[10])
             T.apply(X.copy())
-            T.as_matrix()
-        except Exception:  # noqa: BLE001
-            continue           # rejected: compared with the model's error in the correspondence
+            got = None
+        except Exception as e:  # noqa: BLE001
+            got = type(e)
+        if expect is None and got is not None:
+            v.append(("C16/AffineTransformation/valid-apply-refused", f"apply() raised {got.__name__} for {shapes}"))
+        elif expect is not None and got is None:
+            v.append(("C16/AffineTransformation/model-count-mismatch-accepted" if expect is IndexError
+                      else "C16/AffineTransformation/translation-shape-mismatch-accepted", f"apply() accepted {shapes}"))
+        elif expect is not None and got is not expect:
+            v.append(("C16/AffineTransformation/wrong-error", f"apply() raised {got.__name__}, expected {expect.__name__} for {shapes}"))
+        if v or expect is not None:
+            return v
         _check_transform(T, X, "AffineTransformation", v)
         if not v:
             _check_transform(T, _as_atoms(X.copy()), "AffineTransformation", v)
@@ -1921,7 +2011,7 @@ def nontrivial(case, impl_out):
     k = case.get("kind")
     if k == "fit":
         import numpy as np
-        return np.array(case["fixed"]).shape[-2] >= 2
+        return bool(case.get("large")) or np.array(case["fixed"]).shape[-2] >= 2
     if k == "woof":
         return True
     if k == "homc":
